@@ -49,6 +49,7 @@ func copySkeletonRules(w *World, r *Report, a *cmdAnchors, f *ssa.Function, srcF
 		return
 	}
 	ruleOneClock(w, r, rOne, a, sk)
+	ruleUntilDefault(w, r, rOne, f, []*ssa.Function{a.readWhisperFile, a.sumWhisperFile})
 	var upd *ssa.Call
 	for _, c := range callsTo(f, a.update) {
 		if c.Parent() == f {
@@ -172,6 +173,10 @@ func rulesC08(w *World, r *Report) {
 			r.Undecided("C08.R7", "CopyCommand.execute:glob", w.pos(ex.Pos()), "no copyOneFile call over the glob result found")
 		}
 	}
+	if ex := fn(w.Cmd, "CopyCommand.execute"); ex != nil && cp != nil {
+		ruleLoopGoesOn(w, r, "C08.R7", "CopyCommand.execute:every-file", firstLoopCall(ex, cp), "with a glob pattern every matched file is copied")
+		ruleDestPathDefault(w, r, "C08.R7", ex, cp)
+	}
 	ruleC08R8(w, r, a)
 	{
 		var fs []*ssa.Function
@@ -227,11 +232,20 @@ func rulesC09(w *World, r *Report) {
 		} else {
 			ruleVerdict(w, r, "C09.R2", a, sk, true)
 			ruleOneClock(w, r, "C08.R3", a, sk)
+			ruleUntilDefault(w, r, "C08.R3", f, []*ssa.Function{a.readWhisperFile, a.sumWhisperFile})
 			ruleWrapSides(w, r, "C09.R4", a, sk)
 		}
 	}
 	if ex := need(w, r, "C09.R3", w.Cmd, "DiffCommand.execute"); ex != nil {
 		ruleLatchedVerdict(w, r, "C09.R3", ex)
+		dof := fn(w.Cmd, "DiffCommand.diffOneFile")
+		ruleLoopGoesOn(w, r, "C09.R3", "DiffCommand.execute:every-file", firstLoopCall(ex, dof), "with a glob pattern every matched file is compared, also after a difference was found")
+		ruleDestPathDefault(w, r, "C09.R3", ex, dof)
+		for _, c := range callsTo(ex, dof) {
+			if inLoopWith(c.Block()) {
+				r.Check(sameLeaves(c.Common().Args[1], c.Common().Args[2]), "C09.R3", "DiffCommand.execute:glob-same-path", w.instrPos(c), "same relative path on both sides", "glob mode compares a matched file with a different relative path")
+			}
+		}
 	}
 	ruleExitCode(w, r, "C09.R5")
 	rulePrintDiff(w, r, "C09.R6", a)
@@ -265,12 +279,17 @@ func rulesC11(w *World, r *Report) {
 		} else {
 			ruleVerdict(w, r, "C11.R3", a, sk, false)
 			ruleOneClock(w, r, "C11.R3", a, sk)
+			ruleUntilDefault(w, r, "C11.R3", sd, []*ssa.Function{a.readWhisperFile, a.sumWhisperFile})
 			ruleWrapSides(w, r, "C11.R3", a, sk)
 		}
 		ruleSumArgs(w, r, "C11.R2", a, sd)
 	}
 	if ex := need(w, r, "C11.R3", w.Cmd, "SumDiffCommand.execute"); ex != nil {
 		ruleLatchedVerdict(w, r, "C11.R3", ex)
+		ruleLoopGoesOn(w, r, "C11.R3", "SumDiffCommand.execute:every-item", firstLoopCall(ex, fn(w.Cmd, "SumDiffCommand.sumDiffItem")), "every matched item is compared, also after a difference was found")
+	}
+	if ex := fn(w.Cmd, "SumCopyCommand.execute"); ex != nil {
+		ruleLoopGoesOn(w, r, "C11.R1", "SumCopyCommand.execute:every-item", firstLoopCall(ex, fn(w.Cmd, "SumCopyCommand.sumCopyItem")), "the destination of every matched item is written")
 	}
 	{
 		var fs []*ssa.Function
@@ -975,6 +994,100 @@ func rulesC10(w *World, r *Report) {
 			if nSt == 0 {
 				r.Violate("C10.R4", "sumTimeSeriesListForArchive:store", w.pos(sf.Pos()), "nothing is stored into the accumulator")
 			}
+			// which file gets which store: file 0 initialises (or is copied in before the loop), every later file is added
+			{
+				peeled0 := false
+				eachInstr(sf, func(in ssa.Instruction) {
+					if c, ok := in.(*ssa.Call); ok && isBuiltin(c, "copy") && len(c.Common().Args) == 2 {
+						ex := newExprCtx(w)
+						if ex.expr(c.Common().Args[0]) == ex.expr(acc) && ex.expr(c.Common().Args[1]) == "p0[0][p1].values" {
+							peeled0 = true
+						}
+					}
+				})
+				// signs of (file index - 0) under which the store runs, from the nearest test of the file index above it
+				fileSigns := func(st *ssa.Store) (map[int]bool, bool) {
+					signs := map[int]bool{0: true, 1: true}
+					b := st.Block()
+					for i := 0; i < 6 && len(b.Preds) == 1; i++ {
+						p := b.Preds[0]
+						if iff, ok := p.Instrs[len(p.Instrs)-1].(*ssa.If); ok {
+							cond, neg := stripNot(iff.Cond)
+							if bo, ok := cond.(*ssa.BinOp); ok && isCmp(bo.Op) {
+								onTrue := (b == p.Succs[0]) != neg
+								flip := 0
+								isFileIdx := func(x ssa.Value) bool {
+									if _, isConst := x.(*ssa.Const); isConst || x.Referrers() == nil {
+										return false
+									}
+									// the index applied to the list of files
+									used := false
+									for _, ref := range *x.Referrers() {
+										switch ia := ref.(type) {
+										case *ssa.IndexAddr:
+											used = used || stripChangeType(ia.X) == ssa.Value(sf.Params[0])
+										case *ssa.Index:
+											used = used || stripChangeType(ia.X) == ssa.Value(sf.Params[0])
+										}
+									}
+									return used
+								}
+								isZero := func(x ssa.Value) bool { k, ok := constInt(x); return ok && k == 0 }
+								switch {
+								case isFileIdx(bo.X) && isZero(bo.Y):
+									flip = 1
+								case isFileIdx(bo.Y) && isZero(bo.X):
+									flip = -1
+								}
+								if flip != 0 {
+									for sg := 0; sg <= 1; sg++ {
+										if signOK(bo.Op, sg*flip) != onTrue {
+											delete(signs, sg)
+										}
+									}
+									return signs, true
+								}
+							}
+						}
+						b = p
+					}
+					return signs, false
+				}
+				var initOK, addOK bool
+				bad := ""
+				eachInstr(sf, func(in ssa.Instruction) {
+					st, ok := in.(*ssa.Store)
+					if !ok {
+						return
+					}
+					ia, ok := st.Addr.(*ssa.IndexAddr)
+					if !ok || ia.X != ssa.Value(acc) {
+						return
+					}
+					signs, tested := fileSigns(st)
+					if c, isCall := st.Val.(*ssa.Call); isCall && c.Common().StaticCallee() == add {
+						switch {
+						case tested && !signs[0]:
+							addOK = true
+						case !tested && peeled0:
+							addOK = true
+						default:
+							bad = "file 0 is added onto the zero-valued accumulator (an all-NaN slot sums to 0), or later files are not added"
+						}
+					} else {
+						switch {
+						case tested && !signs[1]:
+							initOK = true
+						default:
+							bad = "the accumulator is overwritten by files other than the first"
+						}
+					}
+				})
+				if bad == "" && !(addOK && (initOK || peeled0)) {
+					bad = "the accumulator is not both initialised from the first file and added to for every later file"
+				}
+				r.Check(bad == "", "C10.R4", "sumTimeSeriesListForArchive:first-then-add", w.pos(sf.Pos()), "file 0 initialises the accumulator, files 1.. are added with Value.Add", "sumTimeSeriesListForArchive: "+bad)
+			}
 			// loops: range over all files and all slots
 			full := 0
 			// the first file may be peeled off: the accumulator is then initialised by copy(acc, file 0's values)
@@ -1003,6 +1116,46 @@ func rulesC10(w *World, r *Report) {
 					ex.expr(as[2]) == "p0[0][p1].step" && as[3] == ssa.Value(acc)
 				r.Check(okNT, "C10.R4", "sumTimeSeriesListForArchive:result", w.instrPos(c), "the sum carries file 0's window/step and the accumulator", "the summed series does not carry file 0's (from, until, step) and the accumulated values")
 			}
+		}
+	}
+	r.Rule("C10.R6", "derives-from: the sum command reads sumWhisperFile(SrcBase, item, SrcPattern, ArchiveID, From, until, now) for every item of globItems(SrcBase, ItemPattern), until being Until or (when 0) the clock reading, and prints the header and the PointsList of exactly what it read", 3)
+	if se := need(w, r, "C10.R6", w.Cmd, "SumCommand.execute"); se != nil {
+		ex := newExprCtx(w)
+		gi := callsTo(se, fn(w.Cmd, "globItems"))
+		okG := len(gi) == 1 && ex.expr(gi[0].Common().Args[0]) == "p0.SrcBase" && ex.expr(gi[0].Common().Args[1]) == "p0.ItemPattern"
+		pos := w.pos(se.Pos())
+		r.Check(okG, "C10.R6", "SumCommand.execute:items", pos, "items come from globItems(SrcBase, ItemPattern)", "the items summed are not globItems(c.SrcBase, c.ItemPattern)")
+		sw := callsTo(se, a.sumWhisperFile)
+		okS := len(sw) == 1
+		got := ""
+		if okS {
+			as := sw[0].Common().Args
+			var es []string
+			for _, x := range as {
+				es = append(es, ex.expr(x))
+			}
+			got = strings.Join(es, ", ")
+			okS = len(as) == 7 && es[0] == "p0.SrcBase" && strings.HasPrefix(es[1], "cmd.globItems(p0.SrcBase, p0.ItemPattern)#0[") && es[2] == "p0.SrcPattern" && es[3] == "p0.ArchiveID" && es[4] == "p0.From" &&
+				es[6] == "whispertool.TimestampFromStdTime(time.Now())"
+		}
+		r.Check(okS, "C10.R6", "SumCommand.execute:sum-args", pos, "sumWhisperFile(SrcBase, item, SrcPattern, ArchiveID, From, until, now) per item", "the sum is not computed from the command's base, item, pattern, archive selection and From: sumWhisperFile("+got+")")
+		ruleLoopGoesOn(w, r, "C10.R6", "SumCommand.execute:every-item", firstLoopCall(se, a.sumWhisperFile), "every matched item is summed and printed")
+		if okS {
+			ruleUntilDefault(w, r, "C10.R6", se, []*ssa.Function{a.sumWhisperFile})
+			pf := callsTo(se, fn(w.Cmd, "printFileData"))
+			okP := len(pf) == 1
+			if okP {
+				as := pf[0].Common().Args
+				h, isH := as[1].(*ssa.Extract)
+				okP = isH && h.Tuple == ssa.Value(sw[0]) && h.Index == 0 && ex.expr(as[3]) == "p0.ShowHeader"
+				if pl, isCall := as[2].(*ssa.Call); okP && isCall && calleeIs(pl, fn(w.Cmd, "TimeSeriesList.PointsList")) {
+					t, isT := pl.Common().Args[0].(*ssa.Extract)
+					okP = isT && t.Tuple == ssa.Value(sw[0]) && t.Index == 1
+				} else {
+					okP = false
+				}
+			}
+			r.Check(okP, "C10.R6", "SumCommand.execute:prints-sum", pos, "prints (header, PointsList of the summed series) of the read", "sum does not print the header and the PointsList of exactly what sumWhisperFile returned")
 		}
 	}
 	ruleGoroutines(w, r, "C17.R3")
